@@ -64,7 +64,7 @@ STUBBED = ["os.system / subprocess.Popen / os.exec* / os.posix_spawn / socket.* 
            "write-mode file objects inside the world (SimFile); writes outside the world are recorded and refused",
            "asynchronous failures (exception raised by the line-event seam), OS error returns (synthetic OSError)"]
 STEP_BUDGET = 3000000
-TASK_TIMEOUT = {"quick": 600, "thorough": 3000}
+TASK_TIMEOUT = {"quick": 900, "thorough": 5400}
 
 
 def probes():
